@@ -651,6 +651,8 @@ _public_ int m_mod_stats(const m_mod_t *mod, m_mod_stats_t *stats) {
 
 _public_ int m_mod_start(m_mod_t *mod) {
     M_MOD_ASSERT_STATE(mod, M_MOD_IDLE | M_MOD_STOPPED);
+    /* A module that is being deregistered (ie: already removed from its context) cannot be restarted by its on_stop() hook */
+    M_RET_ASSERT(m_map_get(mod->ctx->modules, mod->name) == mod, -EACCES);
     M_MOD_CONSUME_TOKEN(mod);
     
     int ret = start(mod, true);
